@@ -36,6 +36,11 @@ def check_guard(ctx: Ctx, cname: str, member="interface_distance"):
             site = f"{fi.qualname}:loop"
             bad = None
             n = 0
+            exits = [x for x in ast.walk(lp.node) if isinstance(x, (ast.Break, ast.Return)) and not any(isinstance(q, (ast.For, ast.While)) and q is not lp.node and any(z is x for z in ast.walk(q)) for q in ast.walk(lp.node))]
+            if exits:
+                ctx.violate("GUARD", site + ":exit", (fi, exits[0]),
+                            f"the loop over the amplitudes is left by `{type(exits[0]).__name__.lower()}`: all later modes are dropped (e.g. the sum stops at the first amplitude that is exactly zero)")
+                continue
             for s in ast.walk(lp.node):
                 if not (isinstance(s, ast.AugAssign) or (isinstance(s, ast.Assign) and isinstance(s.targets[0], ast.Name) and c13.cumulative(s, s.targets[0].id))):
                     continue
@@ -82,6 +87,7 @@ def check(ctx: Ctx):
                 ctx.findings.append(f)
         ctx.functions |= sub.functions
     render.check_scaling(ctx)
+    render.check_real_harmonics(ctx)
     render.check_sum_clip(ctx)
     ctx.expect("DIMGUARD", 3)
     ctx.expect("DIST", 4)
@@ -97,6 +103,7 @@ def check(ctx: Ctx):
     ctx.expect("GUARD", 3)
     ctx.expect("COEFF", 7)
     ctx.expect("AFFINE", 2)
+    ctx.expect("HARMONIC", 6)
     ctx.expect("SUMCLIP", 3)
     ctx.trust("GridBase.difference_vector / transform implement the grid's periodic metric", "numpy tanh, clip, astype semantics")
     ctx.assume("translation equivariance and order independence of the floating-point sum are not decided")
